@@ -20,6 +20,7 @@ func init() {
 			"(R4) reset rule shape: the away-counter is zeroed whenever the offset equals the home offset, incremented by one otherwise, and the offset returns home (counter zeroed) when the counter exceeds the configured interval; the disabled path only zeroes the counter. " +
 			"Does not decide: the modulo-quantum identity, the half-quantum step bound and the reset timing as numeric facts over all input sequences.",
 		RuleDocs: []string{
+			"C12.R6 backward data slice of the inversion flag handed to each channel's unwrapper reads the group's first channel number (flags that leave the function through memory or a module call are undecided)",
 			"C12.R1 E5 carried-state rule: loop-header phis, uses of the range index",
 			"C12.R5 a binary search is only made over a list sorted by a dominating call or a field the module sorts (no instance on the pinned tree; seed C12-6 is the positive example)",
 			"C12.R2 E3 congruence of the stored output and of every offset store; constructor home offset; sibling arms agree on mask/shift",
